@@ -321,3 +321,90 @@ Proof.
     destruct (bytes_cmp b c) eqn:E2; try discriminate. now rewrite (bytes_cmp_trans_lt a b c E1 E2).
   - intros a b. rewrite bytes_eqb_cmp, (bytes_cmp_swap a b). destruct (bytes_cmp a b); simpl; auto.
 Qed.
+
+(* ------------------------------------------------------------------ the hash of numbers respects == *)
+
+Lemma fcmp_eq_norm : forall x y, fcmp x y = Some Eq -> fnorm x = fnorm y.
+Proof.
+  intros x y H. unfold fcmp, b64_compare, Binary.Bcompare in H.
+  destruct x as [s1|s1|s1 p1 h1|s1 m1 e1 h1], y as [s2|s2|s2 p2 h2|s2 m2 e2 h2]; simpl in H; try discriminate;
+    try (destruct s1; discriminate); try (destruct s2; discriminate).
+  - destruct s1, s2; reflexivity.
+  - destruct s1, s2; try discriminate; reflexivity.
+  - assert (E : s1 = s2 /\ e1 = e2 /\ m1 = m2).
+    { destruct s1, s2; try discriminate; inversion H as [H0]; clear H;
+        destruct (Z.compare_spec e1 e2); try discriminate; subst;
+        change (Pos.compare_cont Eq m1 m2) with (Pos.compare m1 m2) in H0;
+        destruct (Pos.compare_spec m1 m2); try discriminate; subst; auto. }
+    destruct E as (-> & -> & ->).
+    assert (X : Binary.B754_finite 53 1024 s2 m2 e2 h1 = Binary.B754_finite 53 1024 s2 m2 e2 h2)
+      by (apply Binary.B2FF_inj; reflexivity).
+    rewrite X. reflexivity.
+Qed.
+
+Lemma num_eq_emb : forall a b, num_eq a b = true -> fcmp (emb a) (emb b) = Some Eq \/ (exists z, a = I z /\ b = I z).
+Proof.
+  intros a b H. destruct a as [x|x], b as [y|y]; simpl in *.
+  - right. apply Z.eqb_eq in H. subst. eauto.
+  - left. unfold feq in H. destruct (fcmp (i2f x) y) as [[]|]; try discriminate; reflexivity.
+  - left. unfold feq in H. destruct (fcmp x (i2f y)) as [[]|]; try discriminate; reflexivity.
+  - left. unfold feq in H. destruct (fcmp x y) as [[]|]; try discriminate; reflexivity.
+Qed.
+
+(* equal numbers feed the hasher the same word — for ALL numbers *)
+Theorem num_hash_respects_eq : forall a b, num_eq a b = true -> num_hash_bits a = num_hash_bits b.
+Proof.
+  intros a b H. destruct (num_eq_emb a b H) as [E|(z & -> & ->)]; [|reflexivity].
+  unfold num_hash_bits. change (match a with I z => i2f z | F x => x end) with (emb a).
+  change (match b with I z => i2f z | F x => x end) with (emb b). now rewrite (fcmp_eq_norm _ _ E).
+Qed.
+
+(* ------------------------------------------------------------------ exactly convertible integers *)
+
+Lemma num_exact_bounds : forall z, num_exact (I z) = true -> -9007199254740992 <= z <= 9007199254740992.
+Proof. simpl. intros z H. apply andb_prop in H. destruct H. lia. Qed.
+
+Lemma exact_in_i64 : forall z, -9007199254740992 <= z <= 9007199254740992 -> in_i64 z = true.
+Proof. intros. unfold in_i64, i64_min, i64_max. apply andb_true_intro. split; apply Z.leb_le; lia. Qed.
+
+Lemma i2f_exact : forall z, -9007199254740992 <= z <= 9007199254740992 -> Binary.B2R 53 1024 (i2f z) = IZR z.
+Proof.
+  intros z Hz. destruct (i2f_spec z (exact_in_i64 z Hz)) as [R _]. rewrite R.
+  apply Generic_fmt.round_generic. apply Generic_fmt.valid_rnd_N.
+  apply (FLT.generic_format_FLT radix2 (3 - 1024 - 53) 53).
+  destruct (Z.eq_dec (Z.abs z) 9007199254740992) as [E|N].
+  - assert (C : z = 9007199254740992 \/ z = -9007199254740992) by lia.
+    destruct C; subst.
+    + apply (FLT.FLT_spec radix2 (3 - 1024 - 53) 53 _ (Float radix2 1 53)); simpl; try lia.
+      unfold F2R. simpl. lra.
+    + apply (FLT.FLT_spec radix2 (3 - 1024 - 53) 53 _ (Float radix2 (-1) 53)); simpl; try lia.
+      unfold F2R. simpl. lra.
+  - apply (FLT.FLT_spec radix2 (3 - 1024 - 53) 53 _ (Float radix2 z 0)); simpl; try lia.
+    unfold F2R. simpl. ring.
+Qed.
+
+Lemma i2f_exact_inj : forall a c, -9007199254740992 <= a <= 9007199254740992 -> -9007199254740992 <= c <= 9007199254740992 ->
+    fcmp (i2f a) (i2f c) = Some Eq -> a = c.
+Proof.
+  intros a c Ha Hc H.
+  destruct (i2f_spec a (exact_in_i64 a Ha)) as [_ Fa]. destruct (i2f_spec c (exact_in_i64 c Hc)) as [_ Fc].
+  unfold fcmp, b64_compare in H. rewrite (Binary.Bcompare_correct 53 1024 _ _ Fa Fc) in H.
+  inversion H as [H0]. apply Rcompare_Eq_inv in H0. rewrite (i2f_exact a Ha), (i2f_exact c Hc) in H0.
+  now apply eq_IZR.
+Qed.
+
+(* on NaN-free numbers with exactly convertible integers `==` is transitive *)
+Theorem num_eq_trans_exact : forall x y z,
+    num_ok x = true -> num_ok y = true -> num_ok z = true ->
+    num_exact x = true -> num_exact y = true -> num_exact z = true ->
+    num_eq x y = true -> num_eq y z = true -> num_eq x z = true.
+Proof.
+  intros x y z X Y Z EX EY EZ H1 H2.
+  assert (A : fcmp (emb x) (emb y) = Some Eq).
+  { destruct (num_eq_emb x y H1) as [E|(a & -> & ->)]; auto. apply fcmp_refl. now apply emb_not_nan. }
+  assert (B : fcmp (emb y) (emb z) = Some Eq).
+  { destruct (num_eq_emb y z H2) as [E|(a & -> & ->)]; auto. apply fcmp_refl. now apply emb_not_nan. }
+  pose proof (fcmp_trans _ _ _ _ _ A B ltac:(congruence) ltac:(congruence)) as C. simpl in C.
+  destruct x as [a|a], z as [c|c]; simpl in *; unfold feq; try (rewrite C; reflexivity).
+  apply Z.eqb_eq. apply i2f_exact_inj; auto; now apply num_exact_bounds.
+Qed.
